@@ -243,6 +243,21 @@ func genAttrs(t *rapid.T, idx int, withMarker bool) []xml.Attr {
 	if rapid.IntRange(0, 3).Draw(t, "haslang") == 0 {
 		as = append(as, xml.Attr{Name: xml.Name{Space: xmlNS, Local: "lang"}, Value: rapid.SampledFrom([]string{"en", "de-CH"}).Draw(t, "lang")})
 	}
+	if rapid.IntRange(0, 4).Draw(t, "foreignattrs") == 0 {
+		// attributes with the local names id / from / type in a foreign namespace
+		// are not the stanza's own: they are neither a substitute for them nor
+		// to be touched
+		ext := func(local, v string) xml.Attr {
+			return xml.Attr{Name: xml.Name{Space: "urn:verif:ext", Local: local}, Value: v}
+		}
+		fa := []xml.Attr{ext("id", rapid.SampledFrom([]string{"ext-id", ""}).Draw(t, "extid")), ext("from", rapid.SampledFrom([]string{"ext@example.org", ""}).Draw(t, "extfrom")), ext("type", "ext-type")}
+		k := rapid.IntRange(1, 3).Draw(t, "nforeign")
+		if rapid.Bool().Draw(t, "foreignfirst") {
+			as = append(append([]xml.Attr{}, fa[:k]...), as...)
+		} else {
+			as = append(as, fa[:k]...)
+		}
+	}
 	if rapid.IntRange(0, 4).Draw(t, "dupxmlns") == 0 {
 		as = append(as, xml.Attr{Name: xml.Name{Local: "xmlns"}, Value: dupMark})
 	}
